@@ -243,10 +243,13 @@ def digests_cmd(prop, seed, n_units):
     eng = engine_for(prop)
     plan, _cap = eng.plan("quick")
     out = {}
+    block = getattr(eng, "BLOCK", BLOCK)
     for stream, n in plan:
-        k = min(n, n_units, getattr(eng, "BLOCK", BLOCK))
-        part = run_units(prop, stream, seed, list(range(k)), None, 0, True)
-        out[stream] = dict(part["unit_digests"])
+        k = min(n, n_units)
+        out[stream] = {}
+        for start in range(0, k, block):     # block by block, exactly as the worker pool does
+            part = run_units(prop, stream, seed, list(range(start, min(k, start + block))), None, 0, True)
+            out[stream].update(part["unit_digests"])
     print(json.dumps(out, sort_keys=True))
     return 0
 
